@@ -232,7 +232,7 @@ func TestVerifC20DMap(t *testing.T) {
 	rapid.Check(t, func(rt *rapid.T) {
 		c := genC20d(rt, p.Thorough())
 		v, nt, inc := runC20d(c)
-		if inc {
+		if inc || (v != nil && vFlapsSinceMark() > 0) {
 			col.Inconclusive()
 			return
 		}
